@@ -315,17 +315,17 @@ func sameAddrs(a, b []int32) bool {
 }
 
 type c02Case struct {
-	Text string  `json:"text"`
-	T0   int32   `json:"t0"`
-	T1   int32   `json:"t1"`
-	T2   int32   `json:"t2"`
-	Ra   int32   `json:"ra"`
-	Pc   int32   `json:"pc"`
-	Mem  []int8  `json:"mem,omitempty"`
-	Mn   string  `json:"mnemonic"`
-	Regs [3]int  `json:"shape"` // rd, rs1, rs2 register numbers
-	Imm  int32   `json:"imm"`
-	Decl bool    `json:"declared_registers_only,omitempty"`
+	Text string `json:"text"`
+	T0   int32  `json:"t0"`
+	T1   int32  `json:"t1"`
+	T2   int32  `json:"t2"`
+	Ra   int32  `json:"ra"`
+	Pc   int32  `json:"pc"`
+	Mem  []int8 `json:"mem,omitempty"`
+	Mn   string `json:"mnemonic"`
+	Regs [3]int `json:"shape"` // rd, rs1, rs2 register numbers
+	Imm  int32  `json:"imm"`
+	Decl bool   `json:"declared_registers_only,omitempty"`
 }
 
 // declared compares the declared register sets with the table.
